@@ -2,7 +2,8 @@
 
 Families of spec/C07.tla (throw site x handler placement x intermediate try x expression context; one try in
 a loop with every exit kind in try / catch / finally; error objects; where the faulting node stands in its statement;
-programs of n rounds of throw-and-catch in one evaluation, n up to more than the engine's nesting budget) are enumerated by TLC on the reference
+programs of n rounds of throw-and-catch in one evaluation, n up to more than the engine's nesting budget; several throw sites in
+same-named functions of one evaluation, each reporting its own location) are enumerated by TLC on the reference
 machine (FinallyOnce, TryAccounting, KontWF, CatchGetsThrown on every state / transition), replayed into the
 engine and judged by TLC.  Every program that reports locations is also rendered k lines lower and k columns to
 the right (k in {1, 7}); TLC checks that the reported locations shift by exactly k.
@@ -44,7 +45,7 @@ def judge(rep, recs):
 
 def run(rep):
     fams = os.environ.get("C07_FAMS")
-    cases = c05.enumerate_programs(rep, "C07", rep.tier, cfg=ENUM_CFG, env={"FAMS": fams or "TS FO ER EL RP"})
+    cases = c05.enumerate_programs(rep, "C07", rep.tier, cfg=ENUM_CFG, env={"FAMS": fams or "TS FO ER EL RP ML"})
     if len(cases) < 300 and not fams:
         raise Machinery("enumeration produced only %d programs" % len(cases))
     cnt = {}
